@@ -67,4 +67,9 @@ CLAIMS = {
         "note": TRUST,
         "technique": "MIR control-dependence (edge-dominance) read discipline, protocol dominance/path rules, field-reset coverage (effect sets), who-may-write/call inventories",
     },
+    "C09": {
+        "text": "Partial, structural: decides the validate-before-commit discipline of the pre-execution pipeline by an interprocedural effect analysis on MIR: in every function that can be entered with the engine's real state from EGraph::resolve_command (execution excluded; callees handed a local clone are excluded), a write to declaration state (TypeInfo tables, EGraph.functions/rulesets/commands, Names, EncodingState tables, Parser tables, backend registrations) - directly, or through a callee's effect summary - must not be followed by a reachable, uncompensated error exit (`?`, Err literal, or a callee's Err returned as a value). Infeasible pairs are pruned by an enum-variant correlation on match-arm results. Found F2 (typecheck_function committed the signature before validation; fixed) and reports 14 further instances of the same missing-rollback defect (batches, shadowing after typecheck, proof-support rejection, term-encoding re-typecheck) as known findings, each reproduced in the REPL. 'No input panics' is NOT claimed.",
+        "note": TRUST + " A later write to the same field on the way to the exit counts as compensation without checking that it undoes the first; commit sites are mutating container calls (frozen MUTATORS list) and plain stores.",
+        "technique": "interprocedural effect (commit) summaries + CFG reachability to error exits, with enum-variant path-feasibility pruning",
+    },
 }
